@@ -227,6 +227,13 @@ def gen_hydraulic(rng, fluid=None, n=None, features=(), label_scheme="contiguous
         if r > 0.3 and n > 3:
             add("ext_grid", junction="j%d" % int(rng.integers(1, n)), p_bar=p_grid * float(rng.uniform(0.93, 1.0)),
                 t_k=305.0, in_service=True)
+        if rng.random() < 0.3:
+            # a grid that takes no part (out of service, or temperature only) beside the running one
+            if rng.random() < 0.6:
+                add("ext_grid", junction="j0", p_bar=p_grid * 2.0, t_k=320.0, in_service=False)
+            else:
+                add("ext_grid", junction="j0", p_bar=p_grid * 2.0, type="t", in_service=True,
+                    t_k=[e["t_k"] for e in els if e["kind"] == "ext_grid" and e["junction"] == "j0"][0])
     if "islands" in feats:
         # an unsupplied island of 2-3 junctions with a load
         m = int(rng.integers(2, 4))
@@ -457,3 +464,34 @@ def gen_thermal_mesh(rng, n=None, two_feeders=None, max_sections=3):
         if e["kind"] == "pipe" and e["text_k"] is None:
             del e["text_k"]
     return {"fluid": "water", "junctions": js, "elements": els, "heating": {"source": "passive"}}
+
+
+def add_standby(spec, rng, prob=0.6):
+    """Parallel stand-by machines: an out-of-service pump / compressor of another type or ratio beside a running one, created
+    before or after it (the row order of active and inactive elements differs from case to case)."""
+    els = []
+    n = 0
+    for e in spec["elements"]:
+        twin = None
+        if e["kind"] == "pump" and e.get("in_service", True) and rng.random() < prob:
+            twin = dict(e, name=e["name"] + "_standby", std_type=str(rng.choice([t for t in PUMP_TYPES if t != e["std_type"]])), in_service=False)
+        elif e["kind"] == "compressor" and e.get("in_service", True) and rng.random() < prob:
+            twin = dict(e, name=e["name"] + "_standby", pressure_ratio=e["pressure_ratio"] + 0.3, in_service=False)
+        if twin is not None and rng.random() < 0.6:
+            els += [twin, e]
+        elif twin is not None:
+            els += [e, twin]
+        else:
+            els.append(e)
+        n += twin is not None
+    used = {}
+    for e in els:
+        if e.get("index") is not None:
+            used.setdefault(e["kind"], set()).add(e["index"])
+    for e in els:                       # a twin gets a label of its own (labels are unique per table)
+        if e["name"].endswith("_standby") and e.get("index") is not None:
+            e["index"] = max(used[e["kind"]]) + int(rng.integers(1, 5))
+            used[e["kind"]].add(e["index"])
+    spec["elements"] = els
+    spec.pop("row_order", None)
+    return n
